@@ -21,7 +21,24 @@ def dispatch(prop, tier):
     return mod.run(prop, tier)
 
 
+def selftest(props):
+    """Binding self-test: with one observed field of one record corrupted, every trace-validated check must raise an alarm."""
+    import subprocess
+
+    ok = True
+    for p in props:
+        env = dict(os.environ, VERIF_NEGATIVE_CONTROL="1", VERIF_EVIDENCE_DIR=os.path.join(C.scratch(), "ev"))
+        r = subprocess.run([sys.executable, "-m", "harness.cli", p, "--tier", "quick"], cwd=C.VERIF, env=env, stdout=subprocess.PIPE, stderr=subprocess.STDOUT, text=True)
+        alarm = r.returncode == 1 and "VIOLATION" in r.stdout
+        print("selftest %s: corrupted trace %s (exit %d)" % (p, "REJECTED as it must be" if alarm else "ACCEPTED - the trace specification does not constrain the corrupted field", r.returncode))
+        ok = ok and alarm
+    return 0 if ok else 1
+
+
 def main(argv=None):
+    if (argv or sys.argv[1:])[:1] == ["selftest"]:
+        rest = (argv or sys.argv[1:])[1:]
+        return selftest(rest or ["C%02d" % k for k in range(1, 21)])
     ap = argparse.ArgumentParser()
     ap.add_argument("prop")
     ap.add_argument("--tier", default=os.environ.get("VERIF_TIER", "quick"))
